@@ -1,4 +1,6 @@
 import Skc.Lemmas.PeltSpec
+import Skc.Lemmas.Tables
+import Skc.Lemmas.Congr
 
 /-! # C02 — PELT returns an exact minimiser of the penalised segmentation cost
 
@@ -88,6 +90,31 @@ example : SplitIneq exCost 2 8 := by
 /-- on this instance PELT places three changepoints and the reported optimum is 19 -/
 example : (runPeltCode exCost 1 2 8).2 = [2, 4, 6] ∧ (runPeltCode exCost 1 2 8).1 8 = 19 := by
   decide +kernel
+
+
+/-! ### composed down to the data: PELT with the squared-error cost -/
+
+/-- sum of the residual sums of squares of the segments of `[s, e)` cut at `cps`, plus the penalty
+    per changepoint — the objective of the property, written on the rows -/
+noncomputable def rssObjective (x : ℕ → ℝ) (pen : ℝ) (cps : List Nat) (n : Nat) : ℝ :=
+  segCost (fun s e => rss x (segMean x s e) s e) pen 0 cps n
+
+/-- **C02, squared-error cost, from the rows**: with the cost table the code builds from prefix sums,
+    the reported changepoints are admissible, their penalised residual sum of squares is the final
+    score, and no admissible segmentation has a smaller one.  (`SplitIneq` is discharged by
+    `l2Table_split`; table entries are residual sums of squares by `l2Table_eq_rss`, C01.) -/
+theorem pelt_l2_exact (x : ℕ → ℝ) (pen : ℝ) (m n : ℕ) (hm : 1 ≤ m) (hn : 2 * m ≤ n) :
+    let r := runPeltCode (l2Table x) pen m n
+    ValidFrom m 0 r.2 n ∧ rssObjective x pen r.2 n = r.1 n ∧
+      ∀ cps, ValidFrom m 0 cps n → r.1 n ≤ rssObjective x pen cps n := by
+  intro r
+  obtain ⟨h1, h2, h3⟩ := peltCode_optimal (l2Table x) pen m n hm hn (l2Table_split x m n hm)
+  have hc : ∀ cps, ValidFrom m 0 cps n → segCost (l2Table x) pen 0 cps n = rssObjective x pen cps n :=
+    fun cps hv => segCost_congr_valid _ _ pen m hm (fun a b hab => l2Table_eq_rss x a b hab) cps 0 n hv
+  refine ⟨h1, ?_, ?_⟩
+  · rw [← hc _ h1]; exact h2
+  · intro cps hv
+    rw [← hc cps hv]; exact h3 cps hv
 
 /-! ### Negative result: the pinned upstream pruning (`delay = 0`) is not exact for `m = 3` -/
 
